@@ -49,6 +49,16 @@ def run(ctx):
         open(sample, "w").write("\n".join(lines[:10]) + "\n")
         for lam in (MiB, MiB + 1, 2 * MiB, 5 * MiB):
             jobs.append(job("big%d" % lam, sample, ["--leaf", str(lam), "--style", "read"]))
+    # histories of puts interleaved with deletes / clears of one store holding several objects (CafsStore.tla, the
+    # specification of extension X02): the duplicate flag and the stored blobs after every step, with the leaf sizes
+    # 64, 1024 and 96 used in turn by the store instances of ONE process (nothing may leak from one to the next)
+    from checks import x02
+    hist = x02.gen(ctx, "Gen_CafsStore.cfg", "beh_store.ndjson", {})
+    files, _ = x02.shard(ctx, hist, "store", 8 if ctx.thorough else 4)
+    for i, f in enumerate(files):
+        jobs.append(lambda i=i, f=f: vlib.replay(ctx, "cafsstore", f, "store_%d" % i,
+                                                 ["--header", hist + ".hdr", "--design-out", os.path.join(ctx.work, "dz_%d.ndjson" % i),
+                                                  "--seed", str(seed), "--leaf-cycle", "64,1024,96"]))
     results = vlib.parallel(jobs, max_workers=8)
     tot = vlib.account(ctx, results)
     # independent oracle
